@@ -1,6 +1,6 @@
 (* C17 — property theorems only.  Each is closed by [exact]; see C17/Proofs.v. *)
 From Coq Require Import List ZArith Bool Arith.
-From VV Require Import Lib.Base C17.LibDict C17.Model C17.Proofs.
+From VV Require Import Lib.Base C17.LibDict C17.Model C17.Proofs C17.ProofsKeys.
 Import ListNotations.
 
 (* the index-based selection of positions equals the naive scan of the item
@@ -118,3 +118,73 @@ Theorem C17_filter_chain_spec :
     data_key b' = data_key b /\ globals b' = globals b.
 Proof. exact @filter_chain_spec. Qed.
 Print Assumptions C17_filter_chain_spec.
+
+(* round 4: keys() lists exactly the metadata keys (every key but the data key)
+   present in some item *)
+Theorem C17_keys_spec :
+  forall (K V : Type) (keqb : K -> K -> bool) (veqb : V -> V -> bool) (hashable : V -> bool)
+         (kindex : K) (vpos : nat -> V),
+  (forall a b : K, keqb a b = true <-> a = b) ->
+  forall (items : list (list (K * V))) (dk : K) (g : list (K * V)) (b : browser K V) (k : K),
+  make keqb veqb hashable kindex vpos items dk g = Ok b ->
+  In k (bkeys b) <->
+  keqb k (data_key b) = false /\ (exists (it : list (K * V)) (v : V), In it (content b) /\ In (k, v) it).
+Proof. exact @keys_spec. Qed.
+Print Assumptions C17_keys_spec.
+
+(* available_values(k) lists exactly the values some item carries under the
+   metadata key k *)
+Theorem C17_available_values_spec :
+  forall (K V : Type) (keqb : K -> K -> bool) (veqb : V -> V -> bool) (hashable : V -> bool)
+         (kindex : K) (vpos : nat -> V),
+  (forall a b : K, keqb a b = true <-> a = b) ->
+  (forall a b : V, veqb a b = true <-> a = b) ->
+  forall (items : list (list (K * V))) (dk : K) (g : list (K * V)) (b : browser K V) (k : K) (v : V),
+  make keqb veqb hashable kindex vpos items dk g = Ok b ->
+  In v (available_values keqb b k) <->
+  keqb k (data_key b) = false /\ (exists it : list (K * V), In it (content b) /\ In (k, v) it).
+Proof. exact @available_values_spec. Qed.
+Print Assumptions C17_available_values_spec.
+
+(* neither lists anything twice (they are sets) *)
+Theorem C17_keys_values_nodup :
+  forall (K V : Type) (keqb : K -> K -> bool) (veqb : V -> V -> bool) (hashable : V -> bool)
+         (kindex : K) (vpos : nat -> V),
+  (forall a b : K, keqb a b = true <-> a = b) ->
+  (forall a b : V, veqb a b = true <-> a = b) ->
+  forall (items : list (list (K * V))) (dk : K) (g : list (K * V)) (b : browser K V),
+  make keqb veqb hashable kindex vpos items dk g = Ok b ->
+  NoDup (bkeys b) /\ (forall k : K, NoDup (available_values keqb b k)).
+Proof. exact @keys_values_nodup. Qed.
+Print Assumptions C17_keys_values_nodup.
+
+(* a selection never invents a key, nor a value of a key other than the
+   renumbered 'index' *)
+Theorem C17_keys_after_filter :
+  forall (K V : Type) (keqb : K -> K -> bool) (veqb : V -> V -> bool) (hashable : V -> bool)
+         (kindex : K) (vpos : nat -> V),
+  (forall a b : K, keqb a b = true <-> a = b) ->
+  (forall a b : V, veqb a b = true <-> a = b) ->
+  (forall n : nat, hashable (vpos n) = true) ->
+  forall (b : browser K V) (incl excl : list K) (q : list (K * V)) (b' : browser K V),
+  wfb keqb veqb hashable kindex vpos b ->
+  filter_by keqb veqb hashable kindex vpos b incl excl q = Ok b' ->
+  (forall k : K, In k (bkeys b') -> In k (bkeys b)) /\
+  (forall (k : K) (v : V),
+     keqb k kindex = false -> In v (available_values keqb b' k) -> In v (available_values keqb b k)).
+Proof. exact @keys_after_filter. Qed.
+Print Assumptions C17_keys_after_filter.
+
+(* the keys of a merge are those of its two parts *)
+Theorem C17_keys_after_merge :
+  forall (K V : Type) (keqb : K -> K -> bool) (veqb : V -> V -> bool) (hashable : V -> bool)
+         (kindex : K) (vpos : nat -> V),
+  (forall a b : K, keqb a b = true <-> a = b) ->
+  (forall n : nat, hashable (vpos n) = true) ->
+  forall b1 b2 b : browser K V,
+  wfb keqb veqb hashable kindex vpos b1 ->
+  wfb keqb veqb hashable kindex vpos b2 ->
+  merge keqb veqb hashable kindex vpos b1 b2 = Ok b ->
+  forall k : K, In k (bkeys b) <-> In k (bkeys b1) \/ In k (bkeys b2).
+Proof. exact @keys_after_merge. Qed.
+Print Assumptions C17_keys_after_merge.
